@@ -59,7 +59,8 @@ func init() {
 			"with per-call options (regex compiler, defaults, multi-error, exclusions, authentication outcome, generator customizer callback) " +
 			"and 2-6 calls run by 2-12 goroutines, 1-3 calls each, 1-2 rounds on freshly loaded documents. Every case runs in a child of the -race harness; " +
 			"verdicts are compared with the same call run alone on a freshly loaded document — for fresh-process cases alone means in two FURTHER fresh processes that run the calls sequentially in forward and reverse order (process-wide caches survive a reloaded document) —; the document's canonical JSON is compared before/after. " +
-			"A case is non-trivial when at least two goroutines run (the driver reports operation kinds, kind pairs, raced cells, slice shapes, registries).",
+			"history / reuse: ONE goroutine performing every call of a case three times in a row on the same document / routers / Validator, in the given and in reverse order (all kinds + re-validation, the two regex compilers on one pattern, the path-item family for 0/3/4/5 path-level parameters, the schema-list family, generation for eight recursive types; every 12th warm case of the random stream) — deterministic, no schedule involved; " +
+			"A case is non-trivial when at least two goroutines run, or one goroutine performs every call at least twice (the driver reports operation kinds, kind pairs, raced cells, slice shapes, registries, reuse).",
 		Exhaustive: true,
 		Gen:        genC15,
 		Run:        runC15,
@@ -1903,6 +1904,64 @@ func genC15(ctx *hx.Ctx, emit func(hx.Case)) {
 	}
 	// single goroutine: the sequential behaviour of the same machinery (trivial cases)
 	emit(hx.Case{"doc": c15SinkDoc("one"), "calls": []any{c15SinkCall("vreq", 0), c15SinkCall("visit", 1)}, "g": 1, "per": 2, "rounds": 1, "cold": false, "sched": 1})
+	// history / reuse (theorems sequential_reuse, call_after_any_history, concurrent_reuse): ONE goroutine performs every
+	// call of the case three times over, one after the other, on the same loaded document / routers / Validator, in
+	// the given order and in reverse order — no schedule is involved, so anything a call leaves behind for the next one
+	// (a cache filled with a per-call value, a list of the document sorted or extended in place, a field of the shared
+	// route or Validator) shows deterministically: each verdict is compared with the call alone on a freshly loaded
+	// document (and, cold, alone in a fresh process), the document with its JSON before.
+	c15Seq := func(c hx.Case, cold bool) {
+		calls := jlist(c["calls"])
+		for _, rev := range []bool{false, true} {
+			n++
+			cc := cloneCase(c)
+			l := append([]any{}, jlist(cc["calls"])...)
+			if rev {
+				for a, b := 0, len(l)-1; a < b; a, b = a+1, b-1 {
+					l[a], l[b] = l[b], l[a]
+				}
+			}
+			cc["calls"], cc["g"], cc["per"], cc["rounds"], cc["cold"], cc["sched"] = l, 1, 3*len(calls), 1, cold, 1200+n
+			emit(cc)
+		}
+	}
+	{
+		var calls []any
+		for i, k := range c15Kinds {
+			calls = append(calls, c15SinkCall(k, i), c15SinkCall(k, i+1))
+		}
+		calls = append(calls, map[string]any{"k": "dval"})
+		c15Seq(hx.Case{"doc": c15SinkDoc("seqall"), "calls": calls}, true)
+		// the same pattern text reached with two regex compilers, one call after the other
+		for v, val := range []string{"ABAB", "abab"} {
+			n++
+			c15Seq(hx.Case{"doc": c15SinkDoc(fmt.Sprintf("seqrx%d", n)), "calls": []any{
+				map[string]any{"k": "visit", "schema": "S1", "value": `{"name":"` + val + `"}`, "opts": []any{"multi"}, "rx": "ci"},
+				map[string]any{"k": "visit", "schema": "S1", "value": `{"name":"` + val + `"}`, "opts": []any{"multi"}},
+				map[string]any{"k": "vreq", "op": 0, "pathv": "ab", "router": "g", "query": "q=1", "ct": "application/json",
+					"body": `{"name":"` + val + `","tags":["A","b"]}`, "skipDefaults": false, "multi": false, "rx": "ci"},
+				map[string]any{"k": "vreq", "op": 0, "pathv": "ab", "router": "l", "query": "q=1", "ct": "application/json",
+					"body": `{"name":"` + val + `","tags":["A","b"]}`, "skipDefaults": false, "multi": true},
+			}}, v == 0)
+		}
+		for _, nItem := range []int{0, 3, 4, 5} {
+			c15Seq(c15PathItemCase(nItem, nItem%2, n), false)
+		}
+		for v := 0; v < 3; v++ {
+			c15Seq(c15SchemaListCase(v, false, n), v == 0)
+		}
+		for t := 0; t < 2; t++ { // first and repeated generation for recursive types, with and without options
+			var gc []any
+			for ty := 12; ty < 20; ty++ {
+				c := map[string]any{"k": "gen", "type": ty, "rec": true, "opts": []any{}}
+				if (ty+t)%3 == 0 {
+					c["opts"] = []any{"allExported"}
+				}
+				gc = append(gc, c)
+			}
+			c15Seq(hx.Case{"doc": c15SinkDoc("seqrec"), "calls": gc}, true)
+		}
+	}
 
 	nCold, nWarm := 110, 260
 	if ctx.Thorough() {
@@ -1921,7 +1980,11 @@ func genC15(ctx *hx.Ctx, emit func(hx.Case)) {
 			}
 			calls = append(calls, g.call(kind, doc))
 		}
-		emit(hx.Case{"doc": doc, "calls": calls, "g": 2 + r.Intn(11), "per": 1 + r.Intn(3), "rounds": 1 + r.Intn(2), "cold": cold, "sched": int(r.U64() % 100000)})
+		c := hx.Case{"doc": doc, "calls": calls, "g": 2 + r.Intn(11), "per": 1 + r.Intn(3), "rounds": 1 + r.Intn(2), "cold": cold, "sched": int(r.U64() % 100000)}
+		if !cold && i%12 == 7 {
+			c["g"], c["per"], c["rounds"] = 1, 3*len(calls), 1 // one goroutine, every call three times in a row (reuse)
+		}
+		emit(c)
 	}
 }
 
